@@ -89,6 +89,7 @@ pub fn profile(prop: &str) -> Profile {
             p.w_memo = 2;
         }
         "C05" => {
+            p.outer_rhs_skeleton_pct = 10;
             p.w_observe = 14;
             p.w_clone = 4;
             p.w_dropobs = 10;
@@ -96,6 +97,7 @@ pub fn profile(prop: &str) -> Profile {
             p.fx_pct = 20;
         }
         "C06" => {
+            p.outer_rhs_skeleton_pct = 10;
             p.w_cutoff = 12;
             p.w_write = 28;
         }
